@@ -49,6 +49,10 @@ def check(ctx):
     _r2(ctx)
     # a species is never dropped from a reactant / product list for being "empty" (shared with C01.R6)
     c01.species_truthiness(ctx, "R0")
+    # ... nor by the gate every reactant / product name passes: Component._create_species drops pseudo-elements and nothing else (shared with C01.R6)
+    c01.pseudo_filter(ctx, "R0")
+    # ... nor by code that edits a reaction's reactant / product list in place after it was parsed (shared with C01.R12)
+    c01.reaction_lists_frozen(ctx, "R0")
     # R4: one ODE variable per species -- the identifier IDX_<alias> is an injective function of the species (rule shared with C09.R6)
     from . import c09
     ctx.absorb(lambda sub: c09._alias_rule(sub, package(sub.tree)), "R4", only=lambda o: o.key.startswith("Species.alias"))
@@ -574,6 +578,10 @@ MUTANTS += [
     {"name": "element-count-overwrite", "file": SPECIES, "old": "        if element in self.element_count.keys():\n            self.element_count[element] += count\n        else:\n            self.element_count[element] = count\n", "new": "        self.element_count[element] = count\n", "rules": ["R6"]},
     {"name": "cvode-fex-zeroes-exhausted", "file": "naunet/templates/cvode/src/naunet_fex.cpp.j2", "old": "#if ((NHEATPROCS || NCOOLPROCS) && NAUNET_DEBUG)\n    printf(\"Total heating/cooling rate", "new": "    for (int i = 0; i < NSPECIES; i++) {\n        if (y[i] <= 0.0 && ydot[i] < 0.0) ydot[i] = 0.0;\n    }\n#if ((NHEATPROCS || NCOOLPROCS) && NAUNET_DEBUG)\n    printf(\"Total heating/cooling rate", "rules": ["R5"]},
     {"name": "alias-strip-nonword", "file": SPECIES, "old": "        return self._alias\n\n    @alias.setter", "new": "        self._alias = re.sub(r'\\W', '', self._alias)\n        return self._alias\n\n    @alias.setter", "rules": ["R4"]},
+    {"name": "create-species-drops-lowercase-names", "file": "naunet/component.py", "old": "if species_name and species_name not in Species.known_pseudoelements():", "new": "if species_name and species_name not in Species.known_pseudoelements() and not species_name.islower():", "rules": ["R0"]},
+    {"name": "rate-builder-strips-grain-through-alias", "file": "naunet/grains/hh93grain.py", "old": "        [spec] = [s for s in reac.reactants if not s.is_grain]\n", "new": "        others = reac.reactants\n        others.remove(next(s for s in others if s.is_grain))\n        [spec] = others\n", "rules": ["R0"]},
+    {"name": "header-macro-last-key-printf", "file": MACROS, "old": "#define IDX_ELEM_{{ spec.element_count.keys() | first }} {{ loop.index0 }}", "new": "{{ \"#define IDX_ELEM_%s %d\" | format(spec.element_count | last, loop.index0) }}", "rules": ["R1"]},
+    {"name": "element-count-try-except-overwrites", "file": SPECIES, "old": "        if element in self.element_count.keys():\n            self.element_count[element] += count\n        else:\n            self.element_count[element] = count\n", "new": "        try:\n            self.element_count[element] = count\n        except KeyError:\n            self.element_count[element] += count\n", "rules": ["R6"]},
     {"name": "alias-single-M", "file": SPECIES, "old": 'else "M" * abs(self.charge),', "new": 'else "M",', "rules": ["R4"]},
 ]
 BENIGN = [
@@ -603,5 +611,10 @@ BENIGN = [
     {"name": "term-guard-membership", "edits": [
         {"file": PHYS, "old": "{% set natom = spec.element_count.get(elemname) -%}", "new": "{% set natom = spec.element_count.get(elemname, 0) -%}"},
         {"file": PHYS, "old": "               {% if natom -%}\n", "new": "               {% if elemname in spec.element_count and natom > 0 -%}\n"}]},
+    {"name": "element-count-try-except", "file": SPECIES, "old": "        if element in self.element_count.keys():\n            self.element_count[element] += count\n        else:\n            self.element_count[element] = count\n", "new": "        try:\n            self.element_count[element] += count\n        except KeyError:\n            self.element_count[element] = count\n"},
+    {"name": "element-count-setdefault", "file": SPECIES, "old": "        if element in self.element_count.keys():\n            self.element_count[element] += count\n        else:\n            self.element_count[element] = count\n", "new": "        self.element_count.setdefault(element, 0)\n        self.element_count[element] += count\n"},
+    {"name": "term-printf-format", "file": PHYS, "old": '{{ "{:.1f}".format(natom) ~ "*" ~ ab ~ " + "}}', "new": '{{ "%.1f*%s + " | format(natom, ab) }}'},
+    {"name": "abund-symbols-materialised", "file": PHYS, "old": 'map("suffix", "]") -%}', "new": 'map("suffix", "]") | list -%}'},
+    {"name": "header-loop-over-mapped-counts", "file": MACROS, "old": "{% for spec in network.elements %}\n#define IDX_ELEM_{{ spec.element_count.keys() | first }} {{ loop.index0 }}", "new": "{% for counts in network.elements | map(attribute=\"element_count\") %}\n{{ \"#define IDX_ELEM_\" ~ (counts | first) ~ \" \" ~ loop.index0 }}"},
     {"name": "eq-disjuncts-reordered", "file": SPECIES, "old": "                (self.is_electron and o.is_electron)\n                or (", "new": "                self.name == o.name\n                or (self.is_electron and o.is_electron)\n                or ("},
 ]
